@@ -43,6 +43,9 @@ PROGRAMS = {
 }
 
 
+PROGRAMS["split4"] = ({"nodes": [N("s", split="a", split_vals={"a": W("x")})], "outs": ["s"]}, {"x": [1, 2, 3, 4]})
+
+
 def indep(m):
     return {"nodes": [N(f"j{i}", C(i)) for i in range(m)], "outs": [f"j{i}" for i in range(min(m, 3))]}, {}
 
